@@ -18,7 +18,7 @@ class C10(GProp):
     supervise = 4.0
     files = ['tephra-combinator/src/bracket.rs']
     rule = ('all token strings up to the tier bound over {three bracket kinds, plain token, separator, whitespace (filtered), '
-            'rejected char} x every non-empty ordered subset of kinds passed to the combinator x abort sets x the four bracket '
+            'rejected char} x every non-empty ordered subset of kinds passed to the combinator x abort sets (incl. sets that contain bracket tokens of passed and of other kinds) x the four bracket '
             'combinators x sink on/off, plus seeded random deeper nestings, and repetitions that invoke the same bracket parser object again after it failed; inner parsers that read less than, exactly, or more '
             'than the bracket contents; classification (matched/none/unopened/unclosed/mismatch), pair index, value and the '
             'token following the partner are compared with a python reference stack matcher; non-trivial = >= 2 bracket tokens '
@@ -44,7 +44,9 @@ class C10(GProp):
             if sum(1 for x in t if x in ('lp', 'rp', 'lk', 'rk', 'lc', 'rc')) < 1:
                 continue
             kinds = r.choice([[0, 1], [1, 0], [0, 1, 2], [2, 0], [0, 1]])
-            add(t, kinds, r.choice([[], ['Comma'], ['A']]), r.choice(VARIANTS), r.choice(inners), r.below(2))
+            # abort predicates that also accept bracket tokens (of kinds passed or not passed): a close or open bracket of
+            # a passed kind is a bracket first, an abort token only otherwise
+            add(t, kinds, r.choice([[], ['Comma'], ['A'], ['RP'], ['LP', 'Comma'], ['RK', 'A'], ['LK']]), r.choice(VARIANTS), r.choice(inners), r.below(2))
         for i in range(1500 if tier == 'quick' else 20000):
             # random nestings: mostly balanced with noise
             t = []
@@ -69,7 +71,7 @@ class C10(GProp):
                 g = ['repeat', 0, 'inf', ['either', ['map', 1, br], ['map', 2, skip]]]
                 out.append(parsegen.parse_case('c%d' % n, [x for x in t if x != 'bang'], g, sink=0))
                 continue
-            add(t, kinds, r.choice([[], ['Comma'], ['A'], ['B', 'Comma']]), r.choice(VARIANTS), r.choice(inners), r.below(2))
+            add(t, kinds, r.choice([[], ['Comma'], ['A'], ['B', 'Comma'], ['RP'], ['RK', 'Comma'], ['LP'], ['LC', 'RC'], ['LK', 'A']]), r.choice(VARIANTS), r.choice(inners), r.below(2))
         return out
 
     def nontrivial(self, ct, it):
